@@ -708,7 +708,9 @@ def check(ctx):
     find_assets(ctx, o6)
     o7 = Ob('C20.7', 'K2+K1', 'System() installs itself as the active system with an empty registry and the initialised flag false; only add_asset changes the registry; _simulation_helper builds a fresh System per index')
     system_identity(ctx, o7)
-    return [oa, ob, o2, o3, o4, o5, o6, o7]
+    o8 = ctx.shared('c03', 'C03.8', 'C20.8', 'an asset created or connected later behaves like one created before the start only if its upstream is told about the new '
+                    'connection whenever the model is initialised -- between two simulate() calls as well as inside an event')
+    return [oa, ob, o2, o3, o4, o5, o6, o7, o8]
 
 
 CLAIM = {
